@@ -72,7 +72,7 @@ def run(ctx):
 
     if q:
         runs = [("mid2", gen("allseq2-mid", mid, 2), SC_QUICK),
-                ("edge3", gen("allseq3-edge", edge, 3), ["dense-int-break", "sparse-str-near"])]
+                ("edge3", gen("allseq3-edge", edge, 3), ["dense-int-break"])]
     else:
         runs = [("full2", gen("allseq2-full", full, 2), SC_FULL[::3]),
                 ("red3", gen("allseq3-reduced", red, 3), ["dense-int-break", "sparse-str-near"]),
@@ -90,7 +90,7 @@ def run(ctx):
             check_cov(ctx, tr, "scripted")
         ctx.validate("ColumnMap_Trace", TRACE, tr, name="ColumnMap_Trace-" + name, corrupt=corrupt, timeout=3000)
     # impl -> spec: seeded adversarial random sequences
-    nscr, nev = (10, 3000) if q else (80, 5000)
+    nscr, nev = (8, 3000) if q else (80, 5000)
     rnd = [{"sid": "rnd-%d" % i, "random": {"seed": ctx.seed * 100003 + i, "events": nev}} for i in range(nscr)]
     sp = ctx.write_scripts("columnar-random", rnd, wrap=False)
     tr = ctx.run_harness("columnar", sp, name="columnar-random", timeout=3000)
